@@ -2,7 +2,7 @@
 from ..common import CaseInfo
 from ..oracles import Analysis, check_c11
 from ..simharness import run_case
-from ..strategies import sim_cases, spec_strategy
+from ..strategies import sample_cases, sim_cases, spec_strategy
 from ._sim_common import frac, summarize
 
 ID = "C11"
@@ -36,6 +36,17 @@ def _strategy(tier):
 
 
 PARTS = {"sim": {"check": check_case, "strategy": _strategy, "budget": {"quick": 3000, "thorough": 40000}}}
+
+
+def samples_check(case):
+    """the repository's own sample configurations (scaled down, with recording agent classes)"""
+    res = run_case(case)
+    st = check_c11(Analysis(case, res))
+    return CaseInfo(nontrivial=st["fills"] > 0, classes=["sample_" + case["sample"]] + (["fills"] if st["fills"] else []), steps=st.get("orders", st.get("observations", 0)),
+                    sample={"sample": case["sample"], "seed": case["seed"], "sessions": [s["iterationSteps"] for s in case["config"]["simulation"]["sessions"]], "stats": st})
+
+
+PARTS["samples"] = {"check": samples_check, "strategy": lambda tier: sample_cases(), "budget": {"quick": 64, "thorough": 1600}}
 
 
 def vacuity(merged, tier):
